@@ -60,7 +60,8 @@ CONTRACTS = [
                        'result == date_str_of_ordinal(next_weekday_after(ordinal_of(date), timex.day_of_week))')]),
 ]
 
-DRANGE = Rec(TX + 'date_range.py::DateRange', dict(start=DateTime(1950, 2090, midnight=True), end=DateTime(1950, 2090, midnight=True)))
+# the constraint ranges are built by TimexHelpers.daterange_from_timex from datetime.date objects
+DRANGE = Rec(TX + 'date_range.py::DateRange', dict(start=DateTime(1950, 2090, date=True), end=DateTime(1950, 2090, date=True)))
 
 CONTRACTS += [
     Contract('c15.dates_matching_day', H + 'dates_matching_day', ['C15'],
@@ -90,9 +91,10 @@ CONTRACTS += [
              raises={'ValueError': 'not valid_date(timex.year if timex.year is not None else 2001, '
                                    'timex.month if timex.month is not None else 1, '
                                    'timex.day_of_month if timex.day_of_month is not None else 1)'},
-             ensures=[('date-of-fields', 'result == date_with(ordinal(timex.year if timex.year is not None else 2001, '
+             ensures=[('date-of-fields', 'ordinal_of(result) == ordinal(timex.year if timex.year is not None else 2001, '
                                          'timex.month if timex.month is not None else 1, '
-                                         'timex.day_of_month if timex.day_of_month is not None else 1), 0)')]),
+                                         'timex.day_of_month if timex.day_of_month is not None else 1)')],
+             note='the result is a datetime.date (no time of day)'),
 ]
 
 RR = TX + 'timex_range_resolver.py::TimexRangeResolver.'
